@@ -343,6 +343,15 @@ def _sslice_newaxis(n, rng):
                            oshape=[1, H, W, C])
 
 
+@reg("sslice_newaxis_off")
+def _sslice_newaxis_off(n, rng):
+    """new_axis_mask with a non-zero begin on a later dimension: out = in[newaxis, 2:, :, :]"""
+    H, W, C = hwc(rng, hs=(7, 8, 13), ws=(4, 8))
+    x = inp(n, [H, W, C])
+    return n.strided_slice(x, [0, 2, 0, 0], [1, H, W, C], new_axis=0b0001, begin_mask=0b1100, end_mask=0b1110,
+                           oshape=[1, H - 2, W, C])
+
+
 @reg("sslice_stride2", cpu=True)
 def _sslice_stride2(n, rng):
     """CPU: all strides must be 1"""
